@@ -146,6 +146,7 @@ def residual_rule(prog: Program, rep, RID: str):
     f = prog.own_method("AbstractWalkModelDiGraph", "_build_residual_graph_for_layer")
     layer = f.params[1] if len(f.params) > 1 else "layer_i"
     ok = False
+    converted_key = False
     why = "pattern not found"
     for outer in [n for n in walk_no_nested(f.node) if isinstance(n, ast.For)]:
         if not (isinstance(outer.target, ast.Tuple) and len(outer.target.elts) == 2 and "edges" in norm(outer.iter)):
@@ -161,8 +162,14 @@ def residual_rule(prog: Program, rep, RID: str):
                 continue
             m = substitute_locals(it.args[0], defs)
             mt = norm(m)
-            want_key = f"str({u}), str({v}), {layer}"
+            # the variables are indexed by the node objects: (u, v, layer).  A key of converted nodes - (str(u), str(v), layer) - names another object for
+            # every node whose str() differs from it (a str subclass such as `class Node(str, Enum)` passes the isinstance(node, str) validation):
+            # no key matches, every edge is skipped and the solved model returns no walk
+            want_key = f"{u}, {v}, {layer}"
+            str_key = f"str({u}), str({v}), {layer}"
             mt = mt.replace("[(", "[").replace(")]", "]")
+            if mt in (f"round(self.edge_vars_sol[{str_key}])", f"int(round(self.edge_vars_sol[{str_key}]))"):
+                converted_key = True
             apps = [c for c in calls_in(inner) if isinstance(c.func, ast.Attribute) and c.func.attr == "append"]
             body_ok = len(inner.body) == 1 and len(apps) == 1 and norm(apps[0].func.value) == f"residual_graph[{u}]" and norm(apps[0].args[0]) == v
             if mt in (f"round(self.edge_vars_sol[{want_key}])", f"int(round(self.edge_vars_sol[{want_key}]))") and body_ok:
@@ -171,7 +178,11 @@ def residual_rule(prog: Program, rep, RID: str):
             else:
                 why = f"multiplicity `{mt}` / body `{norm(inner.body[0])[:60]}`"
     key = "AbstractWalkModelDiGraph._build_residual_graph_for_layer:multiplicity"
-    if ok:
+    if converted_key:
+        rep.violation(RID, key, "the solver values are looked up under (str(u), str(v), layer) although the variables are indexed by the node objects (u, v, layer): for nodes "
+                      "whose str() differs from the node - `class Node(str, Enum)`, accepted by the isinstance(node, str) validation - no key matches, every edge is skipped "
+                      "silently and the solved model returns an empty list of walks", f.loc())
+    elif ok:
         rep.ok(RID, key, why, f.loc(), sample={"rule": why})
     else:
         rep.violation(RID, key, f"the residual graph is not filled with round(solver value of that same edge and layer) copies of each edge: {why}", f.loc())
